@@ -1,5 +1,890 @@
-//! Suites that exist only in the arkworks build (R1CS, Groth16, BLS12-377).
+//! Suites that exist only in the arkworks build: R1CS gadgets (C13), adversarial hints (C14),
+//! circuit shape and the pinned Groth16 keys (C15), the BLS12-377 engine (C16).
+use crate::common::*;
+use crate::curve::{fq_bytes, fq_from, load_alphabet, rep, scalar_alphabet, Machine, NREG};
+use ark_ec::{AffineRepr, CurveGroup};
+use ark_ff::{One, Zero};
+use ark_r1cs_std::prelude::*;
+use ark_r1cs_std::R1CSVar;
+use ark_relations::r1cs::{
+    ConstraintSynthesizer, ConstraintSystem, ConstraintSystemRef, OptimizationGoal, SynthesisError, SynthesisMode,
+};
+use decaf377::r1cs::fqvar_ext::FqVarExtension;
+use decaf377::r1cs::{ElementVar, FqVar};
+use decaf377::{Element, Fq, Fr};
+use rand_chacha::ChaCha20Rng;
+use rand_core::RngCore;
+use serde_json::{json, Value};
 use std::io::Write;
-pub fn record(_suite: &str, _n: usize, _seed: u64, _arg: &str, _out: &mut dyn Write) -> bool {
-    false
+
+type Affine = <Element as CurveGroup>::Affine;
+
+pub struct Run {
+    pub sat: Option<bool>,
+    pub nc: usize,
+    pub ni: usize,
+    pub nw: usize,
+    pub mh: u64,
+    pub out: Value,
+    pub err: Option<String>,
+}
+
+fn matrices_hash(cs: &ConstraintSystemRef<Fq>) -> u64 {
+    use std::hash::{Hash, Hasher};
+    let mut h = std::collections::hash_map::DefaultHasher::new();
+    if let Some(m) = cs.to_matrices() {
+        for mat in [&m.a, &m.b, &m.c] {
+            mat.len().hash(&mut h);
+            for row in mat.iter() {
+                row.len().hash(&mut h);
+                for (coeff, idx) in row.iter() {
+                    coeff.to_bytes_le().hash(&mut h);
+                    idx.hash(&mut h);
+                }
+            }
+        }
+        m.num_instance_variables.hash(&mut h);
+        m.num_witness_variables.hash(&mut h);
+    }
+    h.finish()
+}
+
+/// Synthesize `f` on a fresh constraint system (prove or setup mode), optionally with the
+/// prover hint of every isqrt replaced, and report satisfaction, output and shape.
+pub fn run_gadget(
+    setup: bool,
+    hint: Option<(bool, Fq)>,
+    f: impl FnOnce(ConstraintSystemRef<Fq>) -> Result<Value, SynthesisError>,
+) -> Run {
+    let cs = ConstraintSystem::<Fq>::new_ref();
+    cs.set_optimization_goal(OptimizationGoal::Constraints);
+    cs.set_mode(if setup { SynthesisMode::Setup } else { SynthesisMode::Prove { construct_matrices: true } });
+    decaf377::r1cs::verif_hooks::set_isqrt_hint(hint);
+    let res = guarded(|| f(cs.clone()));
+    decaf377::r1cs::verif_hooks::set_isqrt_hint(None);
+    let (out, err) = match res {
+        Ok(Ok(v)) => (v, None),
+        Ok(Err(e)) => (json!({}), Some(format!("{:?}", e))),
+        Err(p) => (json!({}), Some(format!("panic: {}", p))),
+    };
+    cs.finalize();
+    let sat = if setup || err.is_some() { None } else { cs.is_satisfied().ok() };
+    Run {
+        sat,
+        nc: cs.num_constraints(),
+        ni: cs.num_instance_variables(),
+        nw: cs.num_witness_variables(),
+        mh: matrices_hash(&cs),
+        out,
+        err,
+    }
+}
+
+// unavailable values (setup mode, or coordinates that are not a curve point: arkworks'
+// `Affine::new` asserts) are logged as empty arrays -- never JSON null
+fn elt_value(v: &ElementVar) -> Value {
+    match guarded(|| v.value()) {
+        Ok(Ok(e)) => rep(&e),
+        _ => json!([]),
+    }
+}
+fn fq_value(v: &FqVar) -> Value {
+    match guarded(|| v.value()) {
+        Ok(Ok(x)) => json!(fq_bytes(&x)),
+        _ => json!([]),
+    }
+}
+fn bool_value(v: &Boolean<Fq>) -> Value {
+    match guarded(|| v.value()) {
+        Ok(Ok(x)) => json!([x]),
+        _ => json!([]),
+    }
+}
+
+#[derive(Clone, Copy, PartialEq)]
+pub enum Mode {
+    Constant,
+    Witness,
+    Input,
+}
+impl Mode {
+    fn name(&self) -> &'static str {
+        match self {
+            Mode::Constant => "constant",
+            Mode::Witness => "witness",
+            Mode::Input => "input",
+        }
+    }
+    fn am(&self) -> AllocationMode {
+        match self {
+            Mode::Constant => AllocationMode::Constant,
+            Mode::Witness => AllocationMode::Witness,
+            Mode::Input => AllocationMode::Input,
+        }
+    }
+}
+const MODES: [Mode; 3] = [Mode::Constant, Mode::Witness, Mode::Input];
+
+fn alloc_elt(cs: &ConstraintSystemRef<Fq>, e: Element, m: Mode) -> Result<ElementVar, SynthesisError> {
+    ElementVar::new_variable(cs.clone(), || Ok(e), m.am())
+}
+fn alloc_fq(cs: &ConstraintSystemRef<Fq>, x: Fq, m: Mode) -> Result<FqVar, SynthesisError> {
+    FqVar::new_variable(cs.clone(), || Ok(x), m.am())
+}
+
+#[derive(Clone)]
+pub struct Ins {
+    pub p: Element,
+    pub q: Element,
+    pub s: Fq,
+    pub k: Vec<u8>,
+    pub cond: bool,
+}
+
+pub const ELT_GADGETS: &[&str] = &[
+    "compress", "add:E+E", "add:E+&E", "add:E+=E", "add:E+=&E", "add:E+const", "add:E+=const", "sub:E-E", "sub:E-&E",
+    "sub:E-=E", "sub:E-=&E", "sub:E-const", "sub:E-=const", "neg", "double", "scalar_mul_le", "is_eq", "is_neq",
+    "enforce_equal", "enforce_not_equal", "conditional_enforce_equal", "conditional_enforce_not_equal", "select",
+    "alloc:Element", "alloc:AffinePoint", "alloc:omit_prime_order_check", "zero", "constant",
+];
+pub const FQ_GADGETS: &[&str] = &["decompress", "elligator", "isqrt", "is_negative", "is_nonnegative", "abs", "alloc:Fq"];
+
+/// one gadget synthesis: inputs allocated in `m`, gadget applied, output value(s) reported
+fn synth(g: &str, cs: ConstraintSystemRef<Fq>, i: &Ins, m: Mode) -> Result<Value, SynthesisError> {
+    let bits_of = |cs: &ConstraintSystemRef<Fq>, k: &[u8]| -> Result<Vec<Boolean<Fq>>, SynthesisError> {
+        let bytes = UInt8::new_witness_vec(cs.clone(), k)?;
+        let mut bits = Vec::new();
+        for b in bytes.iter() {
+            bits.extend(b.to_bits_le()?);
+        }
+        Ok(bits)
+    };
+    Ok(match g {
+        "compress" => {
+            let p = alloc_elt(&cs, i.p, m)?;
+            let s = p.compress_to_field()?;
+            json!({"fq": fq_value(&s)})
+        }
+        "decompress" => {
+            let s = alloc_fq(&cs, i.s, m)?;
+            let e = ElementVar::decompress_from_field(s)?;
+            json!({"elt": elt_value(&e)})
+        }
+        "elligator" => {
+            let s = alloc_fq(&cs, i.s, m)?;
+            let e = ElementVar::encode_to_curve(&s)?;
+            json!({"elt": elt_value(&e)})
+        }
+        "isqrt" => {
+            let s = alloc_fq(&cs, i.s, m)?;
+            let (flag, y) = s.isqrt()?;
+            json!({"flag": bool_value(&flag), "fq": fq_value(&y)})
+        }
+        "is_negative" => {
+            let s = alloc_fq(&cs, i.s, m)?;
+            json!({"bool": bool_value(&s.is_negative()?)})
+        }
+        "is_nonnegative" => {
+            let s = alloc_fq(&cs, i.s, m)?;
+            json!({"bool": bool_value(&s.is_nonnegative()?)})
+        }
+        "abs" => {
+            let s = alloc_fq(&cs, i.s, m)?;
+            json!({"fq": fq_value(&s.abs()?)})
+        }
+        "alloc:Fq" => {
+            // an ElementVar allocated from its field encoding (lazy: nothing is decoded until used)
+            let e: ElementVar = AllocVar::<Fq, Fq>::new_variable(cs.clone(), || Ok(i.s), m.am())?;
+            let enc = e.compress_to_field()?;
+            json!({"fq": fq_value(&enc)})
+        }
+        "add:E+E" | "add:E+&E" | "add:E+=E" | "add:E+=&E" | "sub:E-E" | "sub:E-&E" | "sub:E-=E" | "sub:E-=&E" => {
+            let p = alloc_elt(&cs, i.p, m)?;
+            let q = alloc_elt(&cs, i.q, m)?;
+            let r = match g {
+                "add:E+E" => p + q,
+                "add:E+&E" => p + &q,
+                "add:E+=E" => {
+                    let mut x = p;
+                    x += q;
+                    x
+                }
+                "add:E+=&E" => {
+                    let mut x = p;
+                    x += &q;
+                    x
+                }
+                "sub:E-E" => p - q,
+                "sub:E-&E" => p - &q,
+                "sub:E-=E" => {
+                    let mut x = p;
+                    x -= q;
+                    x
+                }
+                _ => {
+                    let mut x = p;
+                    x -= &q;
+                    x
+                }
+            };
+            json!({"elt": elt_value(&r)})
+        }
+        "add:E+const" | "add:E+=const" | "sub:E-const" | "sub:E-=const" => {
+            let p = alloc_elt(&cs, i.p, m)?;
+            let r = match g {
+                "add:E+const" => p + i.q,
+                "add:E+=const" => {
+                    let mut x = p;
+                    x += i.q;
+                    x
+                }
+                "sub:E-const" => p - i.q,
+                _ => {
+                    let mut x = p;
+                    x -= i.q;
+                    x
+                }
+            };
+            json!({"elt": elt_value(&r)})
+        }
+        "neg" => {
+            let p = alloc_elt(&cs, i.p, m)?;
+            json!({"elt": elt_value(&p.negate()?)})
+        }
+        "double" => {
+            let mut p = alloc_elt(&cs, i.p, m)?;
+            p.double_in_place()?;
+            json!({"elt": elt_value(&p)})
+        }
+        "scalar_mul_le" => {
+            let p = alloc_elt(&cs, i.p, m)?;
+            let bits = bits_of(&cs, &i.k)?;
+            let r = p.scalar_mul_le(bits.iter())?;
+            json!({"elt": elt_value(&r)})
+        }
+        "is_eq" | "is_neq" => {
+            let p = alloc_elt(&cs, i.p, m)?;
+            let q = alloc_elt(&cs, i.q, m)?;
+            let b = if g == "is_eq" { p.is_eq(&q)? } else { p.is_neq(&q)? };
+            json!({"bool": bool_value(&b)})
+        }
+        "enforce_equal" => {
+            let p = alloc_elt(&cs, i.p, m)?;
+            let q = alloc_elt(&cs, i.q, m)?;
+            p.enforce_equal(&q)?;
+            json!({})
+        }
+        "enforce_not_equal" => {
+            let p = alloc_elt(&cs, i.p, m)?;
+            let q = alloc_elt(&cs, i.q, m)?;
+            p.enforce_not_equal(&q)?;
+            json!({})
+        }
+        "conditional_enforce_equal" | "conditional_enforce_not_equal" => {
+            let p = alloc_elt(&cs, i.p, m)?;
+            let q = alloc_elt(&cs, i.q, m)?;
+            let c = Boolean::new_witness(cs.clone(), || Ok(i.cond))?;
+            if g == "conditional_enforce_equal" {
+                p.conditional_enforce_equal(&q, &c)?;
+            } else {
+                p.conditional_enforce_not_equal(&q, &c)?;
+            }
+            json!({})
+        }
+        "select" => {
+            let p = alloc_elt(&cs, i.p, m)?;
+            let q = alloc_elt(&cs, i.q, m)?;
+            let c = Boolean::new_witness(cs.clone(), || Ok(i.cond))?;
+            let r = ElementVar::conditionally_select(&c, &p, &q)?;
+            json!({"elt": elt_value(&r)})
+        }
+        "alloc:Element" => {
+            let p = alloc_elt(&cs, i.p, m)?;
+            json!({"elt": elt_value(&p)})
+        }
+        "alloc:AffinePoint" => {
+            let a = Affine::from(i.p);
+            let p: ElementVar = AllocVar::<Affine, Fq>::new_variable(cs.clone(), || Ok(a), m.am())?;
+            json!({"elt": elt_value(&p)})
+        }
+        "alloc:omit_prime_order_check" => {
+            let p = ElementVar::new_variable_omit_prime_order_check(cs.clone(), || Ok(i.p), m.am())?;
+            json!({"elt": elt_value(&p)})
+        }
+        "zero" => json!({"elt": elt_value(&<ElementVar as CurveVar<Element, Fq>>::zero())}),
+        "constant" => json!({"elt": elt_value(&<ElementVar as CurveVar<Element, Fq>>::constant(i.p))}),
+        _ => return Err(SynthesisError::Unsatisfiable),
+    })
+}
+
+fn emit_run(out: &mut dyn Write, kind: &str, g: &str, m: Mode, setup: bool, i: &Ins, hint: Option<(bool, Fq)>, r: &Run, extra: Value) {
+    let mut ev = json!({
+        "k": kind, "g": g, "mode": m.name(), "synth": if setup { "setup" } else { "prove" },
+        "p": rep(&i.p), "q": rep(&i.q), "s": fq_bytes(&i.s), "kb": i.k, "cond": i.cond,
+        "sat": r.sat.unwrap_or(false), "has_sat": r.sat.is_some(), "out": r.out, "nc": r.nc, "ni": r.ni, "nw": r.nw,
+        "mh": r.mh.to_le_bytes().to_vec(), "err": r.err.clone().unwrap_or_default(),
+    });
+    if let Some((f, y)) = hint {
+        ev["hflag"] = json!(f);
+        ev["hy"] = json!(fq_bytes(&y));
+    }
+    if let Value::Object(mm) = extra {
+        for (k, v) in mm {
+            ev[k] = v;
+        }
+    }
+    emit(out, ev);
+}
+
+fn alphabet(r: &mut ChaCha20Rng) -> [Element; NREG] {
+    let mut sink: Vec<u8> = Vec::new();
+    let mut m = Machine::new(&mut sink);
+    load_alphabet(&mut m, r);
+    m.regs
+}
+
+fn rand_fq(r: &mut ChaCha20Rng) -> Fq {
+    fq_from(&rbytes(r, 48))
+}
+
+fn fq_inputs(r: &mut ChaCha20Rng, n: usize) -> Vec<(Fq, &'static str)> {
+    let al = alphabet(r);
+    let mut v: Vec<(Fq, &'static str)> = vec![
+        (Fq::zero(), "zero"),
+        (Fq::one(), "one"),
+        (-Fq::one(), "minus_one"),
+        (Fq::from(2u64), "two"),
+        (Fq::from(8u64), "eight"),
+        (-Fq::from(8u64), "minus_eight"),
+        (decaf377::ZETA, "zeta"),
+    ];
+    for e in al.iter() {
+        v.push((e.vartime_compress_to_field(), "valid_encoding"));
+        v.push((-e.vartime_compress_to_field(), "negated_encoding"));
+        v.push((e.vartime_compress_to_field() + Fq::from(2u64), "shifted_encoding"));
+    }
+    for _ in 0..n {
+        v.push((rand_fq(r), "random"));
+        let e = Element::encode_to_curve(&rand_fq(r));
+        v.push((e.vartime_compress_to_field(), "valid_encoding"));
+    }
+    v
+}
+
+/// C13: honest synthesis of every gadget x allocation mode x inputs
+fn gadgets(out: &mut dyn Write, r: &mut ChaCha20Rng, n: usize) {
+    emit(out, json!({"k":"reset","build":BUILD}));
+    let al = alphabet(r);
+    let sa = scalar_alphabet();
+    let mut cnt = 0usize;
+    for g in ELT_GADGETS {
+        for m in MODES {
+            if m == Mode::Input && (g.starts_with("alloc:omit") || *g == "alloc:AffinePoint" && false) {
+                continue;
+            }
+            let npairs = if g.starts_with("scalar_mul") { 3 } else { 10 + n / 10 };
+            for t in 0..npairs {
+                cnt += 1;
+                if cnt % 60 == 0 {
+                    emit(out, json!({"k":"reset","build":BUILD}));
+                }
+                let p = if t < 8 { al[t % NREG] } else { Element::encode_to_curve(&rand_fq(r)) };
+                let q = match t % 5 {
+                    0 => p,
+                    1 => -p,
+                    2 => al[(t * 3 + 1) % NREG],
+                    3 => Element::verif_from_raw({
+                        let c = p.verif_raw();
+                        [-c[0], -c[1], c[2], c[3]]
+                    }),
+                    _ => Element::encode_to_curve(&rand_fq(r)),
+                };
+                let k = if t == 0 { vec![0u8; 1] } else if t == 1 { sa[cnt % sa.len()].clone() } else { let nb = 1 + below(r, 3); rbytes(r, nb) };
+                let ins = Ins { p, q, s: Fq::zero(), k, cond: cnt % 2 == 0 };
+                if m == Mode::Input && !matches!(*g, "compress" | "alloc:Element" | "alloc:AffinePoint" | "neg" | "add:E+E" | "is_eq" | "enforce_equal" | "select") {
+                    continue;
+                }
+                let run = run_gadget(false, None, |cs| synth(g, cs, &ins, m));
+                emit_run(out, "gadget", g, m, false, &ins, None, &run, json!({}));
+            }
+        }
+    }
+    emit(out, json!({"k":"reset","build":BUILD}));
+    let fin = fq_inputs(r, n / 4 + 2);
+    for g in FQ_GADGETS {
+        for m in MODES {
+            for (t, (s, class)) in fin.iter().enumerate() {
+                cnt += 1;
+                if cnt % 60 == 0 {
+                    emit(out, json!({"k":"reset","build":BUILD}));
+                }
+                if m != Mode::Witness && t % 3 != 0 {
+                    continue;
+                }
+                let ins = Ins { p: Element::IDENTITY, q: Element::IDENTITY, s: *s, k: vec![], cond: false };
+                let run = run_gadget(false, None, |cs| synth(g, cs, &ins, m));
+                emit_run(out, "gadget", g, m, false, &ins, None, &run, json!({"class": class}));
+            }
+        }
+    }
+}
+
+/// C13: every order and repetition of forcing the lazily evaluated encoding / element.
+/// ops: "C" = compress_to_field(), "E" = cs() (forces the element, adds nothing else), "V" = value()
+fn lazy(out: &mut dyn Write, r: &mut ChaCha20Rng, seqs: &[String]) {
+    emit(out, json!({"k":"reset","build":BUILD}));
+    let al = alphabet(r);
+    let mut cnt = 0usize;
+    for from in ["encoding", "element"] {
+        for seq in seqs {
+            for (ci, class) in ["valid", "identity", "invalid", "random_valid"].iter().enumerate() {
+                if *class == "invalid" && from == "element" {
+                    continue;
+                }
+                cnt += 1;
+                if cnt % 40 == 0 {
+                    emit(out, json!({"k":"reset","build":BUILD}));
+                }
+                let e = match ci {
+                    0 => al[2 + cnt % 6],
+                    1 => al[cnt % 2],
+                    _ => Element::encode_to_curve(&rand_fq(r)),
+                };
+                let s = if *class == "invalid" { e.vartime_compress_to_field() + Fq::one() } else { e.vartime_compress_to_field() };
+                let cs = ConstraintSystem::<Fq>::new_ref();
+                cs.set_optimization_goal(OptimizationGoal::Constraints);
+                cs.set_mode(SynthesisMode::Prove { construct_matrices: true });
+                let var: Result<ElementVar, String> = guarded(|| {
+                    if from == "encoding" {
+                        AllocVar::<Fq, Fq>::new_witness(cs.clone(), || Ok(s)).map_err(|e| format!("{:?}", e))
+                    } else {
+                        ElementVar::new_witness(cs.clone(), || Ok(e)).map_err(|e| format!("{:?}", e))
+                    }
+                })
+                .and_then(|x| x);
+                emit(out, json!({"k":"lazy_new","from":from,"seq":seq,"class":class,"s":fq_bytes(&s),"p":rep(&e),
+                    "nc":cs.num_constraints(),"nw":cs.num_witness_variables(),"ok":var.is_ok()}));
+                if let Ok(v) = &var {
+                    for op in seq.chars() {
+                        let val = match op {
+                            'C' => guarded(|| v.compress_to_field().map(|x| json!({"fq": fq_value(&x)}))),
+                            'E' => guarded(|| {
+                                let _ = v.cs();
+                                Ok(json!({}))
+                            }),
+                            _ => guarded(|| Ok(json!({"elt": elt_value(v)}))),
+                        };
+                        let mut ev = json!({"k":"lazy_op","op": op.to_string(), "nc": cs.num_constraints(), "nw": cs.num_witness_variables()});
+                        match val {
+                            Ok(Ok(x)) => ev["val"] = x,
+                            Ok(Err::<Value, SynthesisError>(e)) => ev["panic"] = json!(format!("{:?}", e)),
+                            Err(p) => ev["panic"] = json!(p),
+                        }
+                        emit(out, ev);
+                    }
+                }
+                cs.finalize();
+                let sat = cs.is_satisfied().unwrap_or(false);
+                emit(out, json!({"k":"lazy_end","sat":sat,"nc":cs.num_constraints()}));
+            }
+        }
+    }
+}
+
+/// C14: substituted prover hints and offered coordinates
+fn hints(out: &mut dyn Write, r: &mut ChaCha20Rng, n: usize) {
+    emit(out, json!({"k":"reset","build":BUILD}));
+    let fin = fq_inputs(r, n);
+    let mut cnt = 0usize;
+    for g in ["isqrt", "decompress", "elligator", "compress"] {
+        for (s, class) in fin.iter() {
+            // the gadget's isqrt operand for this input, so that the roots able to satisfy a case equation can be offered
+            let den = match g {
+                "isqrt" => *s,
+                "decompress" => {
+                    let ss = s.square();
+                    let u1 = Fq::one() - ss;
+                    let u2 = u1.square() - Fq::from(4u64 * 3021) * ss;
+                    u2 * u1.square()
+                }
+                _ => rand_fq(r),
+            };
+            let (f1, y1) = Fq::sqrt_ratio_zeta(&Fq::one(), &den);
+            let mut hs: Vec<(bool, Fq)> = vec![
+                (true, Fq::zero()),
+                (false, Fq::zero()),
+                (true, Fq::one()),
+                (false, Fq::one()),
+                (true, -Fq::one()),
+                (false, -Fq::one()),
+                (f1, y1),
+                (f1, -y1),
+                (!f1, y1),
+                (!f1, -y1),
+                (true, rand_fq(r)),
+                (false, rand_fq(r)),
+            ];
+            // y with y^2 * den = zeta (the other case's root), when it exists
+            let (f2, y2) = Fq::sqrt_ratio_zeta(&decaf377::ZETA, &den);
+            if f2 {
+                hs.push((true, y2));
+                hs.push((false, y2));
+                hs.push((false, -y2));
+            }
+            for (hi, h) in hs.iter().enumerate() {
+                if *class == "random" && hi > 9 && cnt % 3 != 0 {
+                    continue;
+                }
+                cnt += 1;
+                if cnt % 60 == 0 {
+                    emit(out, json!({"k":"reset","build":BUILD}));
+                }
+                let p = if g == "compress" {
+                    match Encoding32(*s).decode() {
+                        Some(e) => e,
+                        None => continue,
+                    }
+                } else {
+                    Element::IDENTITY
+                };
+                let ins = Ins { p, q: Element::IDENTITY, s: *s, k: vec![], cond: false };
+                let run = run_gadget(false, Some(*h), |cs| synth(g, cs, &ins, Mode::Witness));
+                emit_run(out, "hint", g, Mode::Witness, false, &ins, Some(*h), &run, json!({"class": class}));
+            }
+        }
+    }
+    // offered coordinates when an element is witnessed: valid points in other scalings, the other coset member,
+    // off-curve pairs, on-curve points outside the group
+    emit(out, json!({"k":"reset","build":BUILD}));
+    let al = alphabet(r);
+    for t in 0..(40 + n) {
+        let base = if t < 8 { al[t] } else { Element::encode_to_curve(&rand_fq(r)) };
+        let c = Affine::from(base).verif_raw();
+        let lam = rand_fq(r);
+        let (x, y, class) = match t % 6 {
+            0 => (c[0], c[1], "valid"),
+            1 => (-c[0], -c[1], "valid_other_coset_member"),
+            2 => (c[0] * lam, c[1] * lam, "scaled_off_curve"),
+            3 => (rand_fq(r), rand_fq(r), "random_off_curve"),
+            4 => (c[1], c[0], "swapped"),
+            _ => {
+                // a curve point outside 2E: solve x from a random y
+                let yy = rand_fq(r);
+                let num = Fq::one() - yy.square();
+                let den = -Fq::one() - Fq::from(3021u64) * yy.square();
+                let (sq, xx) = Fq::sqrt_ratio_zeta(&num, &den);
+                if sq {
+                    (xx, yy, "on_curve_unknown_coset")
+                } else {
+                    (c[0], c[1], "valid")
+                }
+            }
+        };
+        let offered = Element::verif_from_raw([x, y, Fq::one(), x * y]);
+        let ins = Ins { p: offered, q: Element::IDENTITY, s: Fq::zero(), k: vec![], cond: false };
+        for g in ["alloc:Element", "alloc:AffinePoint"] {
+            let run = run_gadget(false, None, |cs| synth(g, cs, &ins, Mode::Witness));
+            emit_run(out, "hint", g, Mode::Witness, false, &ins, None, &run, json!({"class": class}));
+        }
+    }
+}
+
+struct Encoding32(Fq);
+impl Encoding32 {
+    fn decode(&self) -> Option<Element> {
+        decaf377::Encoding(self.0.to_bytes_le()).vartime_decompress().ok()
+    }
+}
+
+// ---------------------------------------------------------------- C15: circuits and pinned keys
+// Verbatim copies of the seven circuits of tests/groth16_gadgets.rs (they live in the test file,
+// not in the library; the gadgets they compose are the library's).
+#[derive(Clone)]
+pub struct DiscreteLogCircuit {
+    pub scalar: [u8; 32],
+    pub public: Element,
+}
+impl ConstraintSynthesizer<Fq> for DiscreteLogCircuit {
+    fn generate_constraints(self, cs: ConstraintSystemRef<Fq>) -> ark_relations::r1cs::Result<()> {
+        let witness_vars = UInt8::new_witness_vec(cs.clone(), &self.scalar)?;
+        let compressed_public = self.public.vartime_compress_to_field();
+        let public_var: ElementVar = AllocVar::new_input(cs.clone(), || Ok(compressed_public))?;
+        let basepoint_var = ElementVar::new_constant(cs, Element::GENERATOR)?;
+        let test_public = basepoint_var.scalar_mul_le(witness_vars.to_bits_le()?.iter())?;
+        public_var.enforce_equal(&test_public)?;
+        Ok(())
+    }
+}
+#[derive(Clone)]
+pub struct CompressionCircuit {
+    pub point: Element,
+    pub field_element: Fq,
+}
+impl ConstraintSynthesizer<Fq> for CompressionCircuit {
+    fn generate_constraints(self, cs: ConstraintSystemRef<Fq>) -> ark_relations::r1cs::Result<()> {
+        let witness_var = ElementVar::new_witness(cs.clone(), || Ok(self.point))?;
+        let public_var = FqVar::new_input(cs, || Ok(self.field_element))?;
+        let test_public = witness_var.compress_to_field()?;
+        public_var.enforce_equal(&test_public)?;
+        Ok(())
+    }
+}
+#[derive(Clone)]
+pub struct DecompressionCircuit {
+    pub field_element: Fq,
+    pub point: Element,
+}
+impl ConstraintSynthesizer<Fq> for DecompressionCircuit {
+    fn generate_constraints(self, cs: ConstraintSystemRef<Fq>) -> ark_relations::r1cs::Result<()> {
+        let witness_var = FqVar::new_witness(cs.clone(), || Ok(self.field_element))?;
+        let compressed_public = self.point.vartime_compress_to_field();
+        let public_var: ElementVar = AllocVar::new_input(cs, || Ok(compressed_public))?;
+        let test_public = ElementVar::decompress_from_field(witness_var)?;
+        public_var.enforce_equal(&test_public)?;
+        Ok(())
+    }
+}
+#[derive(Clone)]
+pub struct ElligatorCircuit {
+    pub field_element: Fq,
+    pub point: Element,
+}
+impl ConstraintSynthesizer<Fq> for ElligatorCircuit {
+    fn generate_constraints(self, cs: ConstraintSystemRef<Fq>) -> ark_relations::r1cs::Result<()> {
+        let witness_var = FqVar::new_witness(cs.clone(), || Ok(self.field_element))?;
+        let public_var: ElementVar = AllocVar::new_input(cs, || Ok(self.point))?;
+        let test_public = ElementVar::encode_to_curve(&witness_var)?;
+        public_var.enforce_equal(&test_public)?;
+        Ok(())
+    }
+}
+#[derive(Clone)]
+pub struct PublicElementInput {
+    pub point: Element,
+}
+impl ConstraintSynthesizer<Fq> for PublicElementInput {
+    fn generate_constraints(self, cs: ConstraintSystemRef<Fq>) -> ark_relations::r1cs::Result<()> {
+        let _public_var: ElementVar = AllocVar::new_input(cs, || Ok(self.point))?;
+        Ok(())
+    }
+}
+#[derive(Clone)]
+pub struct NegationCircuit {
+    pub pos: Element,
+    pub public_neg: Element,
+}
+impl ConstraintSynthesizer<Fq> for NegationCircuit {
+    fn generate_constraints(self, cs: ConstraintSystemRef<Fq>) -> ark_relations::r1cs::Result<()> {
+        let pos = ElementVar::new_witness(cs.clone(), || Ok(self.pos))?;
+        let public_neg = ElementVar::new_input(cs, || Ok(self.public_neg))?;
+        let neg: ElementVar = pos.negate()?;
+        neg.enforce_equal(&public_neg)?;
+        Ok(())
+    }
+}
+#[derive(Clone)]
+pub struct AddAssignAddCircuit {
+    pub a: Element,
+    pub b: Element,
+    pub c: Element,
+    pub d: Element,
+}
+impl ConstraintSynthesizer<Fq> for AddAssignAddCircuit {
+    fn generate_constraints(self, cs: ConstraintSystemRef<Fq>) -> ark_relations::r1cs::Result<()> {
+        let a = ElementVar::new_witness(cs.clone(), || Ok(self.a))?;
+        let b = ElementVar::new_witness(cs.clone(), || Ok(self.b))?;
+        let c_pub = ElementVar::new_input(cs.clone(), || Ok(self.c))?;
+        let c_add = a.clone() + b.clone();
+        let mut c_add_assign = a.clone();
+        c_add_assign += b.clone();
+        c_add.enforce_equal(&c_pub)?;
+        c_add_assign.enforce_equal(&c_pub)?;
+        let d_pub = ElementVar::new_input(cs, || Ok(self.d))?;
+        let d_sub = a.clone() - b.clone();
+        let mut d_sub_assign = a.clone();
+        d_sub_assign -= b;
+        d_sub.enforce_equal(&d_pub)?;
+        d_sub_assign.enforce_equal(&d_pub)?;
+        Ok(())
+    }
+}
+
+fn circuit_shape<C: ConstraintSynthesizer<Fq>>(c: C, setup: bool) -> Run {
+    run_gadget(setup, None, |cs| {
+        c.generate_constraints(cs)?;
+        Ok(json!({}))
+    })
+}
+
+fn instance_assignment<C: ConstraintSynthesizer<Fq>>(c: C) -> Vec<Vec<u8>> {
+    let cs = ConstraintSystem::<Fq>::new_ref();
+    cs.set_optimization_goal(OptimizationGoal::Constraints);
+    cs.set_mode(SynthesisMode::Prove { construct_matrices: false });
+    let _ = guarded(|| c.generate_constraints(cs.clone()));
+    cs.finalize();
+    let b = cs.borrow().unwrap();
+    b.instance_assignment.iter().map(|x| fq_bytes(x)).collect()
+}
+
+fn groth16_case<C: ConstraintSynthesizer<Fq> + Clone>(
+    out: &mut dyn Write,
+    name: &str,
+    c: C,
+    publics: &[Element],
+    public_fq: Option<Fq>,
+    wrong: &[Fq],
+    r: &mut ChaCha20Rng,
+) {
+    use ark_groth16::{r1cs_to_qap::LibsnarkReduction, Groth16, ProvingKey, VerifyingKey};
+    use ark_serialize::CanonicalDeserialize;
+    use ark_snark::SNARK;
+    use ark_ff::ToConstraintField;
+    use rand_core::SeedableRng;
+    type E = decaf377::Bls12_377;
+    let dir = std::env::var("VERIF_REPO").unwrap_or_else(|_| "/repo".to_string()) + "/tests/test_vectors/";
+    let pkb = std::fs::read(format!("{}{}_pk.bin", dir, name)).expect("pk");
+    let vkb = std::fs::read(format!("{}{}_vk.param", dir, name)).expect("vk");
+    let res = guarded(|| {
+        let pk = ProvingKey::<E>::deserialize_uncompressed_unchecked(&pkb[..]).expect("pk parse");
+        let vk = VerifyingKey::<E>::deserialize_uncompressed(&vkb[..]).expect("vk parse");
+        let mut rng = rand_chacha::ChaCha20Rng::seed_from_u64(r.next_u64());
+        let proof = Groth16::<E, LibsnarkReduction>::prove(&pk, c.clone(), &mut rng).map_err(|e| format!("{:?}", e))?;
+        let pvk = Groth16::<E, LibsnarkReduction>::process_vk(&vk).map_err(|e| format!("{:?}", e))?;
+        let mut pi: Vec<Fq> = Vec::new();
+        for p in publics {
+            pi.extend(p.to_field_elements().unwrap());
+        }
+        if let Some(f) = public_fq {
+            pi.push(f);
+        }
+        let ok = Groth16::<E, LibsnarkReduction>::verify_with_processed_vk(&pvk, &pi, &proof).map_err(|e| format!("{:?}", e))?;
+        let mut rejected_wrong = Vec::new();
+        for w in wrong {
+            let mut pi2 = pi.clone();
+            pi2[0] = *w;
+            rejected_wrong.push(!Groth16::<E, LibsnarkReduction>::verify_with_processed_vk(&pvk, &pi2, &proof).map_err(|e| format!("{:?}", e))?);
+        }
+        Ok::<_, String>((ok, rejected_wrong, pi))
+    });
+    let inst = instance_assignment(c.clone());
+    let pubs: Vec<Value> = publics.iter().map(rep).collect();
+    let ev = json!({"k":"groth16","circuit":name,"publics":pubs,"public_fq":public_fq.map(|f| fq_bytes(&f)).unwrap_or_default(),"instance":inst});
+    let fin = match res {
+        Ok(Ok((ok, rej, pi))) => finish(ev, Ok(json!({"verified":ok,"wrong_rejected":rej,"pi":pi.iter().map(fq_bytes).collect::<Vec<_>>()}))),
+        Ok(Err(e)) => finish(ev, Ok(json!({"verified":false,"wrong_rejected":[],"pi":[],"error":e}))),
+        Err(p) => finish(ev, Err(p)),
+    };
+    emit(out, fin);
+}
+
+fn circuits(out: &mut dyn Write, r: &mut ChaCha20Rng, n: usize, prove: bool) {
+    emit(out, json!({"k":"reset","build":BUILD}));
+    let al = alphabet(r);
+    for t in 0..n.max(1) {
+        let a = if t < 8 { al[t % 8] } else { Element::encode_to_curve(&rand_fq(r)) };
+        let b = if t % 3 == 0 { al[(t + 3) % 8] } else { Element::encode_to_curve(&rand_fq(r)) };
+        let mut scalar = [0u8; 32];
+        if t > 0 {
+            r.fill_bytes(&mut scalar);
+        }
+        if t == 1 {
+            scalar = [0xff; 32];
+        }
+        let x = rand_fq(r);
+        let dl_public = Fr::from_le_bytes_mod_order(&scalar) * Element::GENERATOR;
+        // shapes: each circuit in setup and prove mode on this witness
+        macro_rules! shape {
+            ($name:expr, $c:expr) => {
+                for setup in [true, false] {
+                    let run = circuit_shape($c, setup);
+                    emit(out, json!({"k":"shape","g":format!("circuit:{}", $name),"mode":"circuit","synth":if setup {"setup"} else {"prove"},
+                        "nc":run.nc,"ni":run.ni,"nw":run.nw,"mh":run.mh.to_le_bytes().to_vec(),"sat":run.sat.unwrap_or(false),"has_sat":run.sat.is_some(),"err":run.err.clone().unwrap_or_default()}));
+                }
+            };
+        }
+        let dl = DiscreteLogCircuit { scalar, public: dl_public };
+        let co = CompressionCircuit { point: a, field_element: a.vartime_compress_to_field() };
+        let de = DecompressionCircuit { field_element: a.vartime_compress_to_field(), point: a };
+        let el = ElligatorCircuit { field_element: x, point: Element::encode_to_curve(&x) };
+        let pu = PublicElementInput { point: a };
+        let ne = NegationCircuit { pos: a, public_neg: a.negate() };
+        let aa = AddAssignAddCircuit { a, b, c: a + b, d: a - b };
+        shape!("discrete_log", dl.clone());
+        shape!("compression", co.clone());
+        shape!("decompression", de.clone());
+        shape!("elligator", el.clone());
+        shape!("public_element_input", pu.clone());
+        shape!("negation", ne.clone());
+        shape!("add_assign_add", aa.clone());
+        if prove {
+            let wrong = [rand_fq(r), a.vartime_compress_to_field() + Fq::one()];
+            groth16_case(out, "discrete_log", dl, &[dl_public], None, &wrong, r);
+            groth16_case(out, "compression", co.clone(), &[], Some(co.field_element), &wrong, r);
+            groth16_case(out, "decompression", de, &[a], None, &wrong, r);
+            groth16_case(out, "elligator", el.clone(), &[el.point], None, &wrong, r);
+            groth16_case(out, "public_element_input", pu, &[a], None, &wrong, r);
+            groth16_case(out, "negation", ne.clone(), &[ne.public_neg], None, &wrong, r);
+            groth16_case(out, "add_assign_add", aa.clone(), &[aa.c, aa.d], None, &wrong, r);
+        }
+    }
+}
+
+/// C15: gadget shapes over inputs and synthesis modes
+fn shapes(out: &mut dyn Write, r: &mut ChaCha20Rng, n: usize) {
+    emit(out, json!({"k":"reset","build":BUILD}));
+    let al = alphabet(r);
+    for g in ELT_GADGETS.iter().chain(FQ_GADGETS.iter()) {
+        for m in MODES {
+            if m == Mode::Input && g.starts_with("alloc:omit") {
+                continue;
+            }
+            for t in 0..(4 + n) {
+                // values that are embedded in the circuit as constants are part of its shape: keep them fixed
+                let p_is_const = m == Mode::Constant || *g == "constant";
+                let q_is_const = m == Mode::Constant || g.ends_with("const");
+                let p = if p_is_const { al[2] } else if t < 3 { al[t * 2] } else { Element::encode_to_curve(&rand_fq(r)) };
+                let q = if q_is_const { al[5] } else if t % 2 == 0 { p } else { Element::encode_to_curve(&rand_fq(r)) };
+                let s = if m == Mode::Constant { Fq::from(8u64) } else if FQ_GADGETS.contains(g) && *g != "decompress" && *g != "alloc:Fq" { if t == 0 { Fq::zero() } else { rand_fq(r) } } else { p.vartime_compress_to_field() };
+                let ins = Ins { p, q, s, k: vec![t as u8, 0xff], cond: t % 2 == 0 };
+                for setup in [true, false] {
+                    if setup && t > 1 {
+                        continue;
+                    }
+                    let run = run_gadget(setup, None, |cs| synth(g, cs, &ins, m));
+                    emit(out, json!({"k":"shape","g":g,"mode":m.name(),"synth":if setup {"setup"} else {"prove"},
+                        "nc":run.nc,"ni":run.ni,"nw":run.nw,"mh":run.mh.to_le_bytes().to_vec(),"sat":run.sat.unwrap_or(false),"has_sat":run.sat.is_some(),"err":run.err.clone().unwrap_or_default()}));
+                }
+            }
+        }
+    }
+    // public input: exactly one instance variable, equal to the element's field encoding = ToConstraintField
+    for t in 0..(8 + n) {
+        let p = if t < 8 { al[t] } else { Element::encode_to_curve(&rand_fq(r)) };
+        let inst = instance_assignment(PublicElementInput { point: p });
+        use ark_ff::ToConstraintField;
+        let tcf: Vec<Vec<u8>> = p.to_field_elements().unwrap().iter().map(fq_bytes).collect();
+        emit(out, json!({"k":"pubinput","p":rep(&p),"instance":inst,"tcf":tcf}));
+    }
+}
+
+pub fn record(suite: &str, n: usize, seed: u64, arg: &str, out: &mut dyn Write) -> bool {
+    let mut r = rng(seed, suite);
+    match suite {
+        "gadgets" => gadgets(out, &mut r, n),
+        "lazy" => {
+            let seqs: Vec<String> = if arg.is_empty() {
+                vec!["C".into(), "E".into(), "CE".into(), "EC".into(), "CCEV".into(), "VEC".into()]
+            } else {
+                std::fs::read_to_string(arg).expect("seq file").lines().map(|l| l.trim().to_string()).filter(|l| !l.is_empty()).collect()
+            };
+            lazy(out, &mut r, &seqs)
+        }
+        "hints" => hints(out, &mut r, n),
+        "shapes" => shapes(out, &mut r, n),
+        "circuits" => circuits(out, &mut r, n, false),
+        "groth16" => circuits(out, &mut r, n, true),
+        "bls" => crate::bls::record(out, &mut r, n),
+        _ => return false,
+    }
+    true
 }
